@@ -243,6 +243,9 @@ func ZZ_C17_DelegateKeys() {
 		}
 		if i < maxBound && vrt.Bool("bound"+s) {
 			b = binding{ext: mapExt(common.BytesToAddress(vrt.Bytes("ext"+s, 20))), orch: sdk.AccAddress(vrt.Bytes("orch"+s, 20)), has: true}
+			if i == 1 { // the second binding (thorough tier) has fixed addresses: the message's addresses can still hit them
+				b = binding{ext: common.BytesToAddress([]byte{0xbb, 1}), orch: sdk.AccAddress(append(make([]byte, 19), 0xcc)), has: true}
+			}
 			for _, o := range binds { // the registry is one-to-one per chain (invariant)
 				if o.has {
 					vrt.Assume(o.ext != b.ext && !o.orch.Equals(b.orch))
@@ -251,7 +254,7 @@ func ZZ_C17_DelegateKeys() {
 			k.SetOrchestratorValidatorAddress(ctx, chain, oper, b.orch)
 			k.setValidatorExternalAddress(ctx, chain, oper, b.ext)
 			k.setExternalOrchestratorAddress(ctx, chain, b.ext, b.orch)
-			if vrt.Bool("alsoOtherChains" + s) { // operators use the same keys on every chain
+			if i == 0 && vrt.Bool("alsoOtherChains"+s) { // operators use the same keys on every chain (first binding only: path budget)
 				for _, oc := range []types.ChainID{"bsc", "ethereum", "minter"} {
 					if oc != chain {
 						k.SetOrchestratorValidatorAddress(ctx, oc, oper, b.orch)
